@@ -82,6 +82,8 @@ def _rand_events(args):
         dmax = 12
         cuts = [0, rnd.randrange(1, dmax), rnd.randrange(1, dmax), 999999]
         ev.extend(rc.dist_events(n, g, id0 + len(ev), cuts))
+        ev.extend(rc.subnet_events(n, g, id0 + len(ev), rnd))        # growth: sub_network(TOPOLOGIC)
+        ev.extend(rc.btw_events(rnd, id0 + len(ev)))                 # growth: distanceBtwPts
     return ev
 
 
@@ -108,7 +110,10 @@ def run(ctx):
     with mp.get_context("fork").Pool(16, initializer=core._pool_init, initargs=(None,)) as pool:
         for ev in pool.imap_unordered(_rand_events, jobs):
             events.extend(ev)
-    bad_wire = [e for e in events if (e["ev"] == "dist" and e["d"] is None)]
+    for e in [e for e in events if "exc" in e]:
+        ctx.violation("%s/raised" % e["ev"], "%s on graph %s raised %s" % (e["ev"], e["g"], e["exc"]), e)
+    events = [e for e in events if "exc" not in e]
+    bad_wire = [e for e in events if (e["ev"] in ("dist", "btw") and e["d"] is None)]
     for e in bad_wire:
         ctx.violation("non-integer-distance", "distance is not an integer on an integer-weighted graph", e)
     events = [e for e in events if e not in bad_wire]
